@@ -97,7 +97,12 @@ def r2_iter_periods(R) -> None:
     if R.require(q, len(rs), 'raise SolutionError on an empty span', fi=f.fi, pred=pred_raise('SolutionError')):
         r = rs[0]
         g = [(text(a), truth) for (a, truth, _t) in f.guard_atoms(r.id)]
-        ok = any(t in ('len(self.span) == 0', 'not self.span', 'not len(self.span)') and truth for (t, truth) in g)
+        ok = f.holds(r.id, 'len(self.span) == 0') or f.holds(r.id, 'self.span', False) or f.holds(r.id, 'len(self.span)', False) \
+            or f.holds(r.id, 'len(self.span) < 1') or f.holds(r.id, 'len(self.span) > 0', False)
+        if not ok and not any('span' in t for (t, _tr) in g):
+            ok = False
+        elif not ok:
+            raise Unknown(f'{q}: empty-span test {g} not in the idiom table')
         R.check(ok, q, 'empty-span-guard', 'an empty span raises SolutionError', f'SolutionError guard is {g}', where=f.where(r))
         tn = [f.cfg.nodes[tid] for (tid, lab) in f.guards_of(r.id)][0]
         others = [n for n in f.cfg.nodes if n.kind in ('stmt', 'test') and n.id != tn.id and n.id != r.id and n.ast is not None
@@ -107,15 +112,24 @@ def r2_iter_periods(R) -> None:
     rets = f.returns()
     if R.require(q, len(rets), 'return PeriodIter(indexes, labels)', fi=f.fi, pred=lambda x: isinstance(x, ast.Return)):
         rv = rets[0].ast.value
+        rv = f.expand(rets[0].id, rv, depth=2, stop=('indexes',)) if rv is not None else rv
         ok = is_call(rv, 'PeriodIter') and len(rv.args) == 2
-        R.check(ok, q, 'perioditer:' + text(rv)[:60], 'returns PeriodIter(positions, labels)', f'`return {text(rv)[:60]}`', where=f.where(rets[0]))
-        if ok:
-            idx, lab = rv.args
-            sl = lab
-            good = isinstance(sl, ast.Subscript) and text(sl.value) == 'self.span' and isinstance(sl.slice, ast.Slice) and sl.slice.step is None \
-                and text(sl.slice.lower) == f'{text(idx)}.start' and text(sl.slice.upper) == f'{text(idx)}.stop'
-            R.check(good, q, 'labels-slice:' + text(lab), 'labels are the slice of span over the same bounds as the positions',
-                    f'labels `{text(lab)}` are not `self.span[{text(idx)}.start:{text(idx)}.stop]`', where=f.where(rets[0]))
+        if not ok:
+            raise Unknown(f'{q}: `return {text(rv)[:60]}` is not PeriodIter(<positions>, <labels>)')
+        idx, lab = rv.args
+        sl = lab
+        if not (isinstance(sl, ast.Subscript) and isinstance(sl.slice, ast.Slice)):
+            raise Unknown(f'{q}: labels `{text(lab)[:60]}` are not a slice of the span')
+        # bounds of the label slice vs bounds of the positions range
+        rng = f.expand(rets[0].id, idx, depth=3)
+        lo_ok = hi_ok = False
+        if is_call(rng, 'range') and len(rng.args) >= 2 and sl.slice.lower is not None and sl.slice.upper is not None:
+            lo_s, hi_s = f.expand(rets[0].id, sl.slice.lower, depth=3), f.expand(rets[0].id, sl.slice.upper, depth=3)
+            lo_ok = text(lo_s) in (text(rng.args[0]), f'{text(rng)}.start') or text(sl.slice.lower) == f'{text(idx)}.start'
+            hi_ok = text(hi_s) in (text(rng.args[1]), f'{text(rng)}.stop') or text(sl.slice.upper) == f'{text(idx)}.stop'
+        good = text(sl.value) in ('self.span', "self.__dict__['span']") and sl.slice.step is None and lo_ok and hi_ok
+        R.check(good, q, 'labels-slice:' + text(lab), 'labels are the slice of span over the same bounds as the positions',
+                f'labels `{text(lab)}` do not cover the same bounds as the positions `{text(rng)[:80]}`', where=f.where(rets[0]))
     c03.r7_default_range(R)
     # PeriodIter zips its arguments in order and yields them in order
     pi = R.repo.func('fsic.core.interfaces.PeriodIter.__init__')
@@ -137,11 +151,9 @@ def r3_validation_first(R) -> None:
             continue
         seen = set()
         for k in ks:
-            atoms = [(text(a), truth) for (a, truth, _t) in f.guard_atoms(k.id)]
             for nm in ('start', 'end'):
-                want1 = f'{nm} is not None'
-                want2 = f'not isinstance(self._locate_period_in_span({nm}), int)'
-                if (want1, True) in atoms and (want2, True) in atoms and text(k.ast.exc) == f'KeyError({nm})':
+                if f.holds(k.id, f'{nm} is None', False) and f.holds(k.id, f'isinstance(self._locate_period_in_span({nm}), int)', False) \
+                        and text(k.ast.exc) == f'KeyError({nm})':
                     seen.add(nm)
             tn = [f.cfg.nodes[tid] for (tid, lab) in f.guards_of(k.id) if f.cfg.nodes[tid].kind == 'test']
             for w in work:
